@@ -70,3 +70,35 @@ def short_msg(exc, n=120):
     s = f"{type(exc).__name__}: {exc}"
     s = re.sub(r"/[^\s'\"]+", "<path>", s)
     return s[:n]
+
+
+_DOMAIN_RUNTIME = ("No PSMs found below", "No PSMs accepted at train_fdr", "No target PSMs were below",
+                   "Failed to calibrate", "Model performs worse")
+
+
+def is_domain_error(etype, msg, site=""):
+    """True for the failures mokapot (or triqler) legitimately raises on data outside the domain a scenario is
+    meant to exercise: nothing accepted at the FDR threshold, degenerate levels for PEP estimation, too few matched
+    peptides for the protein level.  Anything else that makes a run fail is reported, never silently 'uninformative'."""
+    msg = str(msg or "")
+    site = str(site or "")
+    if etype == "RuntimeError" and any(m in msg for m in _DOMAIN_RUNTIME):
+        return True
+    # triqler / PEP estimation on degenerate score distributions (C06's domain)
+    if etype == "ValueError" and "negative dimensions" in msg:
+        return True
+    if etype == "TypeError" and "has no len()" in msg and "create_chunks" in site:
+        return True  # `self.peps = 0` fallback after 'no decoy hits available'
+    if etype in ("LinAlgError", "IndexError", "ZeroDivisionError", "FloatingPointError") and ("peps" in site or "qvality" in msg or "peps" in msg):
+        return True
+    if etype == "SystemExit":
+        return True
+    if etype == "ValueError" and ("Fewer than 90% of all peptides" in msg or "Fewer than 5% of decoy peptides" in msg):
+        return True
+    if etype == "ValueError" and "PEP values are all equal to 1" in msg:
+        return True
+    return False
+
+
+def exc_is_domain(exc):
+    return is_domain_error(type(exc).__name__, str(exc), exc_site(exc))
